@@ -49,3 +49,53 @@ package couchbase
 //@ ensures.every_dirty[C05] forall vb uint16 :: has(state, vb) && has(dirtyOffsets, vb) && dirtyOffsets[vb] ==> s0 <= lastcall("couchbase.(*cbMetadata).saveVBucketCheckpoint", vbID, vb) && lastcall("couchbase.(*cbMetadata).saveVBucketCheckpoint", vbID, vb) < ncalls("couchbase.(*cbMetadata).saveVBucketCheckpoint") && argat("couchbase.(*cbMetadata).saveVBucketCheckpoint", lastcall("couchbase.(*cbMetadata).saveVBucketCheckpoint", vbID, vb), vbID) == vb
 //@ ensures.first_error[C05] result == ret("errgroup.(*Group).Wait", 0)
 //@ modifies calls("errgroup.(*Group).Go"), calls("errgroup.(*Group).Wait"), calls("couchbase.(*cbMetadata).saveVBucketCheckpoint"), calls(errgroup.WithContext)
+
+// ---------- membership documents: keys under the reserved prefix (C14) ----------
+
+//@ func (*cbMembership).createIndex
+//@ props C14
+//@ requires h != nil && h.client != nil && ctx != nil
+//@ check.key[C14] dcalls("couchbase.CreatePath") == 1 && darg("couchbase.CreatePath", 0, id) == h.instanceAll && darg("couchbase.CreatePath", 0, path) == h.id && result == dret("couchbase.CreatePath", 0, 0)
+//@ modifies calls("couchbase.CreatePath"), calls("gocbcore.(*Agent).MutateIn"), calls(couchbase.AsyncOp.Wait), calls(gocbcore.PendingOp.Cancel), calls(select.case), calls(couchbase.Client.GetMetaAgent), chan(uninterp("ctx.done", ctx))
+
+//@ func (*cbMembership).heartbeat
+//@ props C14
+//@ requires h != nil && h.client != nil && h.membershipConfig != nil
+//@ check.key[C14] dcalls("couchbase.UpdateDocument") == 1 && darg("couchbase.UpdateDocument", 0, id) == h.id
+//@ modifies calls("couchbase.UpdateDocument"), calls("gocbcore.(*Agent).MutateIn"), calls(couchbase.AsyncOp.Wait), calls(gocbcore.PendingOp.Cancel), calls(select.case), calls(couchbase.Client.GetMetaAgent)
+
+//@ func (*cbMembership).updateIndex
+//@ props C14 C10
+//@ requires h != nil && h.client != nil && ctx != nil
+//@ loop 1
+//@   modifies content(all)
+//@ check.key[C14] dcalls("couchbase.UpdateDocument") == 1 && darg("couchbase.UpdateDocument", 0, id) == h.instanceAll && darg("couchbase.UpdateDocument", 0, cas) != nil && result == dret("couchbase.UpdateDocument", 0, 0)
+//@ modifies calls("couchbase.UpdateDocument"), calls("gocbcore.(*Agent).MutateIn"), calls(couchbase.AsyncOp.Wait), calls(gocbcore.PendingOp.Cancel), calls(select.case), calls(couchbase.Client.GetMetaAgent), chan(uninterp("ctx.done", ctx))
+
+//@ func (*cbMembership).register
+//@ props C14
+//@ requires h != nil && h.client != nil && h.membershipConfig != nil
+//@ check.keys[C14] (forall i int :: 0 <= i && i < dcalls("couchbase.UpdateDocument") ==> darg("couchbase.UpdateDocument", i, id) == h.id) && (forall i int :: 0 <= i && i < dcalls("couchbase.CreateDocument") ==> darg("couchbase.CreateDocument", i, id) == h.id) && dcalls("couchbase.(*cbMembership).createIndex") == 1 && darg("couchbase.(*cbMembership).createIndex", 0, h) == h
+//@ modifies h.clusterJoinTime, calls("couchbase.(*cbMembership).createIndex"), calls("couchbase.CreatePath"), calls("couchbase.UpdateDocument"), calls("couchbase.CreateDocument"), calls("gocbcore.(*Agent).MutateIn"), calls("gocbcore.(*Agent).Set"), calls(couchbase.AsyncOp.Wait), calls(gocbcore.PendingOp.Cancel), calls(select.case), calls(couchbase.Client.GetMetaAgent)
+
+//@ func (*cbMembership).startHeartbeat
+//@ props C14
+//@ trusted
+//@ requires h != nil
+//@ modifies h.heartbeatRunning
+
+//@ func (*cbMembership).startMonitor
+//@ props C14
+//@ trusted
+//@ requires h != nil
+//@ modifies h.monitorRunning
+
+//@ func NewCBMembership
+//@ props C14 C15
+//@ requires config != nil && client != nil && bus != nil && logger.Log != nil
+//@ let cbm = as(result, "*cbMembership")
+//@ panics.wrong_metadata[C15] config.Metadata.Type != "couchbase"
+//@ ensures.keys_reserved[C14] result != nil && typeis(result, "*cbMembership") && hasprefix(str(cbm.id), helpers.Prefix) && hasprefix(str(cbm.instanceAll), helpers.Prefix)
+//@ ensures.keys_shape[C14] str(cbm.instanceAll) == helpers.Prefix + config.Dcp.Group.Name + ":" + "instance" + ":all"
+//@ ensures.registered[C14] dcalls("couchbase.(*cbMembership).register") == 1 && darg("couchbase.(*cbMembership).register", 0, h) == cbm
+//@ modifies calls("couchbase.(*cbMembership).register"), calls("couchbase.(*cbMembership).createIndex"), calls("couchbase.CreatePath"), calls("couchbase.UpdateDocument"), calls("couchbase.CreateDocument"), calls("gocbcore.(*Agent).MutateIn"), calls("gocbcore.(*Agent).Set"), calls(couchbase.AsyncOp.Wait), calls(gocbcore.PendingOp.Cancel), calls(select.case), calls(couchbase.Client.GetMetaAgent), calls("couchbase.(*cbMembership).startHeartbeat"), calls("couchbase.(*cbMembership).startMonitor")
